@@ -142,7 +142,9 @@ func c19Gen(r *Run, rng *gen.Rng, corpus []string) *c19Inv {
 	main := gw.Main
 	if rng.Chance(55) {
 		nm := rng.Pick([]string{"a.b.tsh", "noext", "my prog.tsh", "rel.v1/prog.tsh", "x.y.z", "UPPER.TSH", "prog.tsh.bak", "sub dir/m.tsh", "p.", "tsh", "bash", "batch", "out", "-x.tsh", "my%20prog.tsh", "100%.tsh", "50%done.v2.tsh", "%s.tsh", "report[1].tsh", "a*b.tsh", "q?.tsh",
-			"prüfung.tsh", "テスト.tsh", "übung", "naïve.v2.tsh", "é.tsh", "Ünïcödé prog.tsh"})
+			"prüfung.tsh", "テスト.tsh", "übung", "naïve.v2.tsh", "é.tsh", "Ünïcödé prog.tsh",
+			// an inner extension that is the extension of a target; blanks at the edges of the name
+			"deploy.sh.tsh", "setup.bat.tsh", "install.sh.in", "run.bat.v2", "a.sh.b.tsh", "prog.tsh.tsh", "notes ", "report.tsh ", " lead.tsh", " both ends .tsh "})
 		// imports are relative to the main file's directory: keep the directory, change the base name
 		nm = path.Join(path.Dir(main), path.Base(nm))
 		if rng.Chance(33) && path.Dir(main) == "." && len(gw.Closure) == 1 {
@@ -182,7 +184,7 @@ func c19Gen(r *Run, rng *gen.Rng, corpus []string) *c19Inv {
 	}
 	mount := rng.Pick([]string{"/sim/m", "/w/my proj", "/home/u/src", "/home/u/.dotfiles/p", "/w/proj-1.2/src", "/w/100% (x)", "/w/projet-été"})
 	exe := rng.Pick([]string{"/sim/x", "/opt/tsh/bin"})
-	outAbs := rng.Pick([]string{"/sim/out", "/sim/out", "/w/build dir", mount, "/sim/bash", "/sim/batch", "/sim/-t", "/sim/out.d/v1.2", "/sim/build%20out", "/sim/out [1]", "/sim/ausgabe-ü", "/sim/出力"})
+	outAbs := rng.Pick([]string{"/sim/out", "/sim/out", "/w/build dir", mount, "/sim/bash", "/sim/batch", "/sim/-t", "/sim/out.d/v1.2", "/sim/build%20out", "/sim/out [1]", "/sim/ausgabe-ü", "/sim/出力", "/sim/out dir ", "/sim/ lead"})
 	files := c13World(gw, r.Env, mount, exe)
 	if outAbs != mount {
 		files = append(files, simrt.FileSpec{Path: outAbs, Dir: true})
